@@ -373,6 +373,83 @@ theorem C17_option_order_irrelevant (tbl : List (String × List String)) (hd : D
       have hb := List.find?_some h2
       simp only [lists_unique hd ha hb]
 
+/-! ### the factories' keyword handling -/
+
+theorem factory_filter (tbl : List (String × List String)) (kw : List (String × Bool)) :
+    factory tbl (kw.filter (·.2)) = factory tbl kw := by
+  unfold factory
+  rw [List.find?_filter, List.filter_filter]
+  have h1 : (fun (a : String × Bool) => decide (a.2 = true ∧ (a.2 && (tbl.lookup a.1).isNone) = true)) =
+      (fun p => p.2 && (tbl.lookup p.1).isNone) := by
+    funext a; cases a.2 <;> simp
+  have h2 : (fun (a : String × Bool) => a.2 && a.2) = (fun a => a.2) := by funext a; cases a.2 <;> rfl
+  rw [h1, h2]
+
+/-- **C17_false_option_ignored**: an option passed as false - known or not, anywhere among the keyword arguments - is an
+option not passed: the same class, or the same error. -/
+theorem C17_false_option_ignored (tbl : List (String × List String)) (kw1 kw2 : List (String × Bool)) (o : String) :
+    factory tbl (kw1 ++ (o, false) :: kw2) = factory tbl (kw1 ++ kw2) := by
+  rw [← factory_filter tbl (kw1 ++ (o, false) :: kw2), ← factory_filter tbl (kw1 ++ kw2)]
+  simp [List.filter_append, List.filter_cons]
+
+/-- **C17_unknown_rejected**: an option that is switched on and not in the table ends the call with an error naming an
+unknown option. -/
+theorem C17_unknown_rejected (tbl : List (String × List String)) (kw : List (String × Bool)) (o : String)
+    (hm : (o, true) ∈ kw) (hu : tbl.lookup o = none) : ∃ e, factory tbl kw = .error e ∧ tbl.lookup e = none := by
+  unfold factory
+  cases h : kw.find? (fun p => p.2 && (tbl.lookup p.1).isNone) with
+  | none =>
+    exfalso
+    have := List.find?_eq_none.mp h (o, true) hm
+    simp [hu] at this
+  | some p =>
+    refine ⟨p.1, rfl, ?_⟩
+    have := List.find?_some h
+    simp only [Bool.and_eq_true, Option.isNone_iff_eq_none] at this
+    exact this.2
+
+/-- **C17_known_accepted**: when every option that is switched on is in the table the call succeeds, and the class is the
+one synthesised from exactly those options in keyword order. -/
+theorem C17_known_accepted (tbl : List (String × List String)) (kw : List (String × Bool))
+    (hk : ∀ p ∈ kw, p.2 = true → (tbl.lookup p.1).isSome = true) :
+    factory tbl kw = .ok (synth tbl ((kw.filter (·.2)).map (·.1))) := by
+  unfold factory
+  cases h : kw.find? (fun p => p.2 && (tbl.lookup p.1).isNone) with
+  | none => rfl
+  | some p =>
+    exfalso
+    have hp := List.find?_some h
+    have hm := List.mem_of_find?_eq_some h
+    simp only [Bool.and_eq_true, Option.isNone_iff_eq_none] at hp
+    have := hk p hm hp.1
+    rw [hp.2] at this
+    cases this
+
+/-- **C17_factory_order_irrelevant**: two calls that switch on the same options - in any order, with any options passed as
+false in between - build the same class (no member being replaced by two options). -/
+theorem C17_factory_order_irrelevant (tbl : List (String × List String)) (hd : DisjointTbl tbl)
+    (kw kw' : List (String × Bool)) (hsame : ∀ o, (o, true) ∈ kw ↔ (o, true) ∈ kw')
+    (c c' : String → Option String) (h : factory tbl kw = .ok c) (h' : factory tbl kw' = .ok c') : c = c' := by
+  unfold factory at h h'
+  cases hf : kw.find? (fun p => p.2 && (tbl.lookup p.1).isNone) with
+  | some p => rw [hf] at h; cases h
+  | none =>
+    cases hf' : kw'.find? (fun p => p.2 && (tbl.lookup p.1).isNone) with
+    | some p => rw [hf'] at h'; cases h'
+    | none =>
+      rw [hf] at h; rw [hf'] at h'
+      cases h; cases h'
+      apply C17_option_order_irrelevant tbl hd
+      intro o
+      simp only [List.mem_map, List.mem_filter]
+      constructor
+      · rintro ⟨⟨a, b⟩, ⟨hm, hb⟩, rfl⟩
+        simp only at hb; subst hb
+        exact ⟨(a, true), ⟨(hsame a).mp hm, rfl⟩, rfl⟩
+      · rintro ⟨⟨a, b⟩, ⟨hm, hb⟩, rfl⟩
+        simp only at hb; subst hb
+        exact ⟨(a, true), ⟨(hsame a).mpr hm, rfl⟩, rfl⟩
+
 end Pysmi.Grammar
 
 namespace Pysmi.Generated.Grammar
@@ -386,6 +463,16 @@ theorem C17_parser_order_irrelevant (opts opts' : List String) (h : ∀ o, o ∈
   ⟨C17_option_order_irrelevant _ C17_options_disjoint.1 _ _ h, C17_option_order_irrelevant _ C17_options_disjoint.2 _ _ h⟩
 
 example : synth optionFuncs ["mixOfCommasAndSpaces", "noCells"] "p_enumItems" = some "mixOfCommasAndSpaces" := by decide +kernel
+
+/-- both factories, on the regenerated tables: options passed as false change nothing -/
+theorem C17_factories_false_ignored (kw1 kw2 : List (String × Bool)) (o : String) :
+    factory optionFuncs (kw1 ++ (o, false) :: kw2) = factory optionFuncs (kw1 ++ kw2) ∧
+    factory lexerOptionMembers (kw1 ++ (o, false) :: kw2) = factory lexerOptionMembers (kw1 ++ kw2) :=
+  ⟨C17_false_option_ignored _ _ _ _, C17_false_option_ignored _ _ _ _⟩
+
+example : (match factory optionFuncs [("noCells", true), ("bogus", false), ("supportIndex", false)] with
+           | .ok c => c "p_CreationPart" | .error _ => none) = some "noCells" := by decide +kernel
+example : (match factory optionFuncs [("noCells", true), ("bogus", true)] with | .ok _ => "" | .error e => e) = "bogus" := by decide +kernel
 end Pysmi.Generated.Grammar
 
 namespace Pysmi.Lexer
